@@ -528,6 +528,11 @@ def run(repo, rep):
     rep.rule('C05.G8', 'the timer is polled: no producer blocks without a bound on any path, so an iteration of the loop ends and ARTIM '
              'expiry becomes Evt18 while the machine waits in Sta2 / Sta13 (a read the poll does not vouch for waits for the peer, '
              'which is what the timer is there to bound)', 1)
+    rep.rule('C05.G9', 'AE-6 chooses between its two alternatives (indicate the request / answer A-ASSOCIATE-RJ and wait in Sta13) as PS3.8 9.3.2 '
+             'says: on bit 0 of the protocol-version field only -- no test in the package compares the whole field with a constant', 1)
+    from ..api_pitfalls import protocol_version_problems as _pvp
+    _pv, _pn = _pvp(repo)
+    rep.check(not _pv, 'C05.G9', 'package:protocol-version-tests', '', '%d test(s) of the protocol version, all on single bits' % _pn, '; '.join(_pv[:3]))
     check_maps(repo, model, rep)
     for tname in ('PDU_TYPES', 'PDU_TO_EVENT'):
         w = repo.table_writers('dulprovider', tname)
